@@ -1,6 +1,7 @@
 //! Model executors: the expected response of a request according to the reference model.
 //! `None` = this op has no model (differential-only).
 use crate::req::{Req, Resp};
+pub mod consts;
 pub mod edwards;
 pub mod field;
 pub mod scalar;
@@ -31,6 +32,9 @@ pub fn oracle(req: &Req, got: &Resp) -> Result<(), String> {
     }
     if req.op.starts_with("v2.") || req.op.starts_with("vi.") {
         return vector::oracle(req, got);
+    }
+    if req.op.starts_with("k.") || req.op.starts_with("kp.") {
+        return consts::oracle(req, got);
     }
     match exec(req) {
         None => Err(format!("no model for op {}", req.op)),
